@@ -13,6 +13,6 @@ PROP = dict(
 )
 META = dict(
     technique="Lean 4 proof about a model of encodeRune/drawCell payload/CanDisplay/buildAcsMap generic in the charset encoder + kernel evaluation over the regenerated terminfo database + differential correspondence on a real terminfo screen per (entry, charset) + oracle decoding the emitted payload",
-    text="Tcell.Props.C17 proves for every encoder, ACS map, fallback map, rune, combining list, width and column: the decision chain (encoder, else ACS, else fallback, else '?', '? ' for wide, blank in the last column), that the payload consists only of accepted encoder output / ACS / fallback / '?' pieces (never raw UTF-8, never a piece starting with 0x1A), CanDisplay agreement, and that Register/UnregisterRuneFallback take effect at the next draw. buildAcsMap is evaluated by the kernel on every database entry: the specification holds for the repaired loop and is refuted for the pinned one (last acsc pair dropped; terminal characters >= 0x80 UTF-8-encoded). The engines draw the BMP (quick: all < 0x3000 + every 7th) in 24 charsets on real terminfo screens and compare payload bytes and CanDisplay with the model and with an oracle written from the property text.",
-    note="Trusted: Lean kernel, correspondence (exhaustive for the ACS maps of all entries, sampled for the payload), external codecs as parameters. Open findings on the pinned tree: acs-last-pair-dropped, acs-high-byte-utf8, acs-padding-literal. (A wide '?' followed by an encodable combining rune is written unpadded — `?`+mark — but no rune that go-runewidth reports as zero-width is encodable in a charset that cannot encode a wide main rune, so under the width convention of DESIGN §6 this is not a violation; the oracle class wide-question-comb-unpadded stays armed.)",
+    text="Tcell.Props.C17 proves for every encoder, ACS map, fallback map, rune, combining list, width and column: the decision chain (encoder, else ACS, else fallback, else '?', '? ' for wide, blank in the last column), that the payload consists only of accepted encoder output / ACS / fallback / '?' pieces (never raw UTF-8, never a piece starting with 0x1A), CanDisplay agreement, and that Register/UnregisterRuneFallback take effect at the next draw. buildAcsMap is evaluated by the kernel on every database entry for the variant the tree under test implements (Gen.acsAll/Gen.acsRawByte, a behavioural probe of the translator): acs_map_spec (every acsc pair of every entry, last pair and characters >= 0x80 included, maps to EnterAcs+char+ExitAcs; full strength since fix 1c34022, refuted for the pinned loop) and acs_map_wire (that string is byte for byte what the terminal must receive, padding stripped, for every entry except vt220 and vt420 — exactly the two entries of the open finding acs-padding-literal, for which the statement is proved false). The engines draw the BMP (quick: all < 0x3000 + every 7th) in 24 charsets on real terminfo screens and compare payload bytes and CanDisplay with the model and with an oracle written from the property text.",
+    note="Trusted: Lean kernel, correspondence (exhaustive for the ACS maps of all entries, sampled for the payload), external codecs as parameters. Fixed by 1c34022: acs-last-pair-dropped, acs-high-byte-utf8. Open finding: acs-padding-literal (vt220, vt420). (A wide '?' followed by an encodable combining rune is written unpadded — `?`+mark — but no rune that go-runewidth reports as zero-width is encodable in a charset that cannot encode a wide main rune, so under the width convention of DESIGN §6 this is not a violation; the oracle class wide-question-comb-unpadded stays armed.)",
 )
